@@ -28,6 +28,8 @@ def run(chk):
     chk.configs = ["py3"]
     W = world()
     p = W.p
+    from . import formulas
+    formulas.recover_formula(chk, p, "C14", "R14.4")
     VK = VClass(p.cls("keys:VerifyingKey"))
     curve = VSym(("param", "curve"), cls=frozenset(["Curve"]))
     q1 = "keys:VerifyingKey.from_public_key_recovery"
